@@ -23,6 +23,8 @@ def _init(mode):
 
 
 def fmt_frac(x):
+    if isinstance(x, float) and (math.isnan(x) or math.isinf(x)):
+        return 'nan' if math.isnan(x) else ('inf' if x > 0 else '-inf')
     x = F(x)
     return str(x.numerator) if x.denominator == 1 else f'{x.numerator}/{x.denominator}'
 
@@ -233,6 +235,7 @@ def build_program(prog, residue_check=True):
     d = defs[0]
     if any(math.copysign(1.0, c) < 0 and c == 0 for c in d['consts']):
         out['skip'] = out['skip'] or 'negative-zero'
+    out['nan_const'] = any(math.isnan(c) or math.isinf(c) for c in d['consts'] + d['params'])
     out['canon'] = ('OK C=' + ','.join(fmt_frac(c) for c in d['consts'])
                     + ' P=' + ','.join(fmt_frac(c) for c in d['params'])
                     + ' U=' + '|'.join(
@@ -263,7 +266,7 @@ def build_program(prog, residue_check=True):
     out['nunits'] = len(d['ugens'])
     out['classes'] = sorted({u['cls'] for u in d['ugens']})
     out['desc'] = desc_check(prog, raw, d)
-    if out['skip'] != 'inexact-constant':       # rounded constants: evaluation over Q is meaningless
+    if out['skip'] != 'inexact-constant' and not out['nan_const']:       # rounded constants: evaluation over Q is meaningless
         try:
             out['sem'] = semantic_oracle(prog, rec, sd, d)
         except Skip as s:
@@ -368,6 +371,7 @@ def semantic_oracle(prog, rec, sd, d):
                         'signature': 'c01:op-rate'}
 
     # --- semantic equivalence over Q with random valuations ----------------------------------
+    all_senv, all_vals = [], []
     for trial in range(4):
         salt = (prog.get('name'), trial)
 
@@ -487,6 +491,30 @@ def semantic_oracle(prog, rec, sd, d):
             else:
                 return {'what': f'unit {i} {c} does not come from any constructor call of the graph function',
                         'signature': 'c01:foreign-unit'}
+        all_senv.append(senv); all_vals.append(vals)
+
+    # --- C02: operator units too must not be placed before a width-first unit created before them.
+    # An emitted operator unit is matched to the EARLIEST source operator event with the same value
+    # under all valuations; if even that one was created after the width-first unit, the unit was
+    # created after it and must follow it.
+    first_ev = {}
+    for j, e in enumerate(events):
+        if e['t'] in ('unop', 'binop', 'madd'):
+            sig = tuple(all_senv[t][base + j][0] for t in range(len(all_senv)))
+            first_ev.setdefault(sig, base + j)
+    for ei, fl in rec['flags'].items():
+        if fl.get('wf'):
+            ps = pos_of(env_objs[ei])
+            if not ps:
+                continue
+            for q in range(ps[0]):
+                if ugens[q]['cls'] in OPS:
+                    sig = tuple(all_vals[t][q][0] for t in range(len(all_vals)))
+                    ev = first_ev.get(sig)
+                    if ev is not None and ev > ei:
+                        return {'what': f'operator unit {q} ({ugens[q]["cls"]}) computes the value of event {ev}, created after '
+                                        f'the width-first unit of event {ei}, but is placed before it (position {ps[0]})',
+                                'signature': 'c02:width-first-op-order'}
     return None
 
 
@@ -539,4 +567,38 @@ def opcode_probe(payload):
                 res.append([arity, name, sp[0] if len(sp) == 1 else f'{len(sp)} units'])
             except Exception as ex:
                 res.append([arity, name, f'{type(ex).__name__}'])
+    return res
+
+
+def desc_probe(payload):
+    """C02: definitions with parameters of every rate and array defaults; returns what the bytes
+    and the library's own reader say about the controls."""
+    _init(payload.get('mode', 'nrt'))
+    import io
+    from sc3.synth.synthdef import SynthDef
+    from sc3.synth.synthdesc import SynthDesc
+    res = []
+    for sig in payload['sigs']:
+        parts = []
+        for name, rate, dflt in sig:
+            d = repr(tuple(dflt)) if isinstance(dflt, list) else repr(dflt)
+            ann = f":'{rate}'" if rate else ''
+            parts.append(f'{name}{ann}={d}')
+        src = 'def f(' + ', '.join(parts) + '):\n    Out.kr(0, 0.5)\n'
+        ns = {}
+        from sc3.synth.ugens.inout import Out
+        ns['Out'] = Out
+        try:
+            exec(src, ns)
+            sd = SynthDef('probe', ns['f'])
+            raw = bytes(sd.as_bytes())
+            d = scgf.parse(raw)[0]
+            desc = SynthDesc._read_stream(io.BytesIO(raw))[0]
+            res.append({'pnames': d['pnames'], 'params': [fmt_frac(x) for x in d['params']],
+                        'controls': [(u['cls'], u['rate'], u['sp'], len(u['outs'])) for u in d['ugens'] if 'Control' in u['cls']],
+                        'desc_names': list(desc.control_names),
+                        'desc': {n: [c.index, c.rate, ([fmt_frac(v) for v in c.default_value] if isinstance(c.default_value, list) else fmt_frac(c.default_value))]
+                                 for n, c in desc.control_dict.items()}})
+        except Exception as ex:
+            res.append({'error': f'{type(ex).__name__}: {str(ex)[:160]}'})
     return res
